@@ -48,6 +48,7 @@ class Stacker(Transformer):
         self.coords_in = {}
         self.coords_out = {}
         self.data_type = None
+        self.vars_in = tuple()
 
     def get_serialization_attrs(self) -> dict:
         return dict(
@@ -57,6 +58,7 @@ class Stacker(Transformer):
             coords_in=self.coords_in,
             coords_out=self.coords_out,
             data_type=self.data_type,
+            vars_in=self.vars_in,
         )
 
     def _validate_data_type(self, X: Data):
@@ -343,6 +345,8 @@ class Stacker(Transformer):
         # Dataset.dims is a mapping, which cannot be stored as an attribute
         self.dims_in = tuple(X.dims)
         self.coords_in = {dim: X.coords[dim] for dim in X.dims}
+        # A Dataset is a mapping: remember the order in which its variables were stacked
+        self.vars_in = tuple(X.data_vars) if isinstance(X, xr.Dataset) else tuple()
 
         return self
 
@@ -367,6 +371,12 @@ class Stacker(Transformer):
             If the data to be transformed has different coordinates than the data used to fit the stacker.
 
         """
+        # The variables of a Dataset are stacked in the order used during fit
+        vars_in = tuple(getattr(self, "vars_in", ()))
+        if isinstance(X, xr.Dataset) and vars_in and tuple(X.data_vars) != vars_in:
+            if all(v in X.data_vars for v in vars_in):
+                X = X[list(vars_in)]
+
         # Test whether sample and feature dimensions are present in data array
         self._validate_transform_dimensions(X)
 
